@@ -190,6 +190,24 @@ Find(p, q) ==
                   /\ ev' = Ev("Find", 0, p, q, "ok", rows)
                   /\ UNCHANGED <<db, cur, sess>>
 
+(* obj.flush() on an object the session holds: only this object's statement is sent (it leaves the queue, the others
+   keep their places); the database checks it like any other *)
+FlushObj(k) ==
+    /\ sess = "open" /\ k \in idxd /\ cur[k].ex
+    /\ IF ~InQueue(k)
+       THEN /\ ev' = Ev("FlushObj", k, 0, 0, "ok", {})
+            /\ UNCHANGED <<db, tx, cur, sess, idxd, pendNew, pendDel, queue, unl>>
+       ELSE LET r == Statement(tx, k)
+            IN IF r[1]
+               THEN /\ tx' = r[2] /\ queue' = Remove(queue, k) /\ pendNew' = pendNew \ {k}
+                    /\ unl' = unl \cup ({k} \cap NullsDropped)
+                    /\ ev' = Ev("FlushObj", k, 0, 0, "ok", {})
+                    /\ UNCHANGED <<db, cur, sess, idxd, pendDel>>
+               ELSE \* the statement is refused and rolled back on its own, the object keeps its place in the queue and the
+                    \* session goes on: whether anything is committed is decided by the flush that ends the session
+                    /\ ev' = Ev("FlushObj", k, 0, 0, "Integrity", {})
+                    /\ UNCHANGED <<db, tx, cur, sess, idxd, pendNew, pendDel, queue, unl>>
+
 Flush ==
     /\ sess = "open"
     /\ IF FlushOk
@@ -229,7 +247,7 @@ EndExc ==
 
 Next == \/ Begin \/ Flush \/ Commit \/ Rollback \/ End \/ EndExc
         \/ \E k \in KIds, p \in PVals \cup {0}, q \in QDom : Create(k, p, q) \/ SetPQ(k, p, q)
-        \/ \E k \in KIds : Delete(k) \/ Get(k)
+        \/ \E k \in KIds : Delete(k) \/ Get(k) \/ FlushObj(k)
         \/ \E p \in PVals, q \in QVals : Find(p, q)
 
 Spec == Init /\ [][Next]_vars
